@@ -1,7 +1,7 @@
 // env_real.rs — runs the REAL altrios-core functions (replay of a Kani counterexample)
 pub mod env {
     use altrios_core::si;
-    use altrios_core::track::{CatPowerLimit, Elev, Heading, SpeedLimit};
+    use altrios_core::track::{CatPowerLimit, CompareType, Elev, Heading, LimitType, SpeedLimit, SpeedParam};
     use altrios_core::uc;
     use altrios_core::validate::*;
     fn cnt(f: impl FnOnce(&mut ValidationErrors)) -> usize { let mut e = ValidationErrors::new(); f(&mut e); e.len() }
@@ -21,6 +21,7 @@ pub mod env {
     pub fn elev_ok(o: f64, z: f64) -> bool { elev(o, z).validate().is_ok() }
     pub fn sl_ok(s: f64, e: f64, v: f64) -> bool { sl(s, e, v).validate().is_ok() }
     pub fn heading_ok(o: f64, h: f64) -> bool { heading(o, h).validate().is_ok() }
+    pub fn sparam_ok(x: f64, axle: bool) -> bool { SpeedParam { limit_val: x, limit_type: if axle { LimitType::AxleCount } else { LimitType::MassTotal }, compare_type: CompareType::TpEqualRp }.validate().is_ok() }
     pub fn cats_ok(n: usize, v: [f64; 9]) -> bool { [cat(v[0], v[1], v[2]), cat(v[3], v[4], v[5]), cat(v[6], v[7], v[8])][..n].validate().is_ok() }
     pub fn elevs_ok(n: usize, v: [f64; 6]) -> bool { [elev(v[0], v[1]), elev(v[2], v[3]), elev(v[4], v[5])][..n].validate().is_ok() }
     pub fn headings_ok(n: usize, v: [f64; 6]) -> bool { [heading(v[0], v[1]), heading(v[2], v[3]), heading(v[4], v[5])][..n].validate().is_ok() }
